@@ -399,6 +399,7 @@ class RExpr:
             if key in self.calls and not e.keywords:
                 cn, n = self.calls[key]
                 if n is not None and len(e.args) != n: raise Refuse('%s: call arity %s' % (self.fname, key))
+                if '%s' in cn: return cn % tuple(self.tr(a) for a in e.args)       # a helper whose asserted body IS this expression
                 return '(%s %s)' % (cn, ' '.join(self.tr(a) for a in e.args))
             raise Refuse('%s: call %s' % (self.fname, key))
         raise Refuse('%s: unsupported expression %s' % (self.fname, type(e).__name__))
